@@ -420,6 +420,28 @@ def run(ctx):
         if not ok:
             res.violation("NONREC", MOD + "._NonrecursivePickler", "call-depth-grows-with-object-depth",
                           f"abstract call depth of dumps() on chains of length 5/10/20 is {[depths[k][0] for k in (5, 10, 20)]} ({[depths[k][1] for k in (5, 10, 20)]}): serialisation recurses with the depth of the object graph")
+    # the same for tuples nested in tuples (a cons list (head, (head, (...)))): elements of a tuple are deferred like everything else
+    tdepths = {}
+    for length in (5, 10, 20):
+        try:
+            h.reset()
+            h.settle()
+            t = Seq([b"tail"], "tuple")
+            for i in range(length - 1):
+                t = Seq([f"head-{i}".encode(), t], "tuple")
+            h.w.max_depth = 0
+            out = h.call(mod["dumps"], t)
+            tdepths[length] = (h.w.max_depth, out.kind)
+        except Unknown as u:
+            res.undecide(f"NONREC nested tuples of depth {length}: {u}")
+    if len(tdepths) == 3:
+        ok = len({d for d, k in tdepths.values()}) == 1 and all(k == "return" for d, k in tdepths.values())
+        res.ob(ok, sig=("nonrec-depth-tuples",))
+        res.rule("NONREC-DEPTH", 3)
+        if not ok:
+            res.violation("NONREC", MOD + "._NonrecursivePickler", "call-depth-grows-with-tuple-nesting",
+                          f"abstract call depth of dumps() on tuples nested 5/10/20 deep is {[tdepths[k][0] for k in (5, 10, 20)]} ({[tdepths[k][1] for k in (5, 10, 20)]}): serialisation recurses with the nesting depth of tuples",
+                          replay="from edgegraph.structure import Vertex\nfrom edgegraph.output import nrpickler\nv = Vertex()\nt = ()\nfor i in range(5000):\n    t = (i, t)\nv.cons = t\nnrpickler.dumps(v)   # RecursionError")
     nonrec_structural(ctx, res)
     from sa import eff
     eff.check_fwd(ctx, [(MOD + ".dumps", "_NonrecursivePickler", {"obj": None}), (MOD + ".dump", "_NonrecursivePickler", {"obj": None})])
@@ -520,6 +542,12 @@ def roundtrip_state(ctx, h, res):
                     if warm is True:
                         h.call(nb, a)
                     a2, b2, c2, e2, u2 = copy_by_object_protocol(h, [a, b, c, e, u])
+                    # "the same uids": read only now, on the original and on the copy (nothing read them before the dump)
+                    uid_bad = []
+                    for o1, o2 in ((a, a2), (e, e2), (u, u2)) + (((u.fields.get("_laws"), u2.fields.get("_laws")),) if isinstance(u.fields.get("_laws"), Obj) and isinstance(u2.fields.get("_laws"), Obj) else ()):
+                        r1, r2 = h.getattr(o1, "uid"), h.getattr(o2, "uid")
+                        if not (r1.kind == "return" and r2.kind == "return" and h.I.eq(r1.value, r2.value)):
+                            uid_bad.append(f"{o1.name}: {r1!r} / copy {r2!r}")
                     h.w.restore()      # fresh interpreter: class-level state is gone, instances keep theirs
                     c05.set_flag(h, load_flag)
                     outs = [h.call(nb, a2), h.call(nb, a2), h.call(bft, u2, a2), h.setattr(e2, "v2", c2), h.call(nb, a2), h.call(h.fn("edgegraph.builder.explicit.unlink"), a2, c2), h.call(nb, a2)]
@@ -534,6 +562,11 @@ def roundtrip_state(ctx, h, res):
                                   f"re-creating the objects through the object protocol raises {r} (a user __hash__/__setstate__ runs on an object of a reference cycle before its state is restored)")
                     continue
                 n += 1
+                res.ob(not uid_bad, sig=("roundtrip-uid", dump_flag, load_flag, warm))
+                if uid_bad:
+                    res.violation("ROUNDTRIP-STATE", "edgegraph.structure.base.BaseObject.uid", "uid-read-for-the-first-time-after-the-copy",
+                                  "a graph copied through the object protocol before anything read its objects' uids: original and copy disagree on uid: " + "; ".join(uid_bad[:3]),
+                                  replay="import pickle\nfrom edgegraph.structure import *\nfrom edgegraph.output import nrpickler\na, b = Vertex(), Vertex()\ne = DirectedEdge(a, b)\ncopy = pickle.loads(nrpickler.dumps(e))\nprint(copy.uid == e.uid, copy.v1.uid == a.uid)")
                 want = [["b'"], ["b'"], ["a'", "b'"], None, ["c'"], "returns", []]
                 got = [([x.name for x in o.value.items] if isinstance(o.value, Seq) else o.value) if o.kind == "return" else "raise " + o.excname for o in outs]
                 if outs[5].kind == "return":
